@@ -5,6 +5,7 @@ CONSTANTS
   FIXREV = TRUE
   FIXWRAP = TRUE
   FIXHOPS = TRUE
+  FIXOHEXP = TRUE
   XorAcc <- SymXor
   MAXLEN = 3
   ALLCH = FALSE
